@@ -106,8 +106,36 @@ def run(name, props_=None):
         drop_tree(d, wt)
 
 
+def runall():
+    bad = 0
+    for name in sorted(os.listdir(os.path.join(VERIF, 'seeded'))):
+        dst = os.path.join(VERIF, 'seeded', name)
+        if not os.path.exists(os.path.join(dst, 'meta.json')):
+            continue
+        meta = json.load(open(os.path.join(dst, 'meta.json')))
+        d, wt, r = scratch_tree(os.path.join(dst, 'patch.diff'))
+        try:
+            if r.returncode:
+                print('%-8s patch no longer applies' % name)
+                bad += 1
+                continue
+            res = checks_for(meta['property'], wt, [meta['property']])
+            e = res[meta['property']]
+            first = (e['lines'] or [''])[0][:150]
+            print('%-8s exit=%d %s' % (name, e['exit'], first))
+            bad += e['exit'] != 1
+            meta['checks'] = dict(meta.get('checks', {}), **res)
+            json.dump(meta, open(os.path.join(dst, 'meta.json'), 'w'), indent=1)
+        finally:
+            drop_tree(d, wt)
+    print('seeds not detected:', bad)
+    return 1 if bad else 0
+
+
 if __name__ == '__main__':
     sys.path.insert(0, VERIF)
+    if sys.argv[1] == 'runall':
+        sys.exit(runall())
     if sys.argv[1] == 'confirm':
         sys.exit(confirm(*sys.argv[2:]))
     else:
